@@ -48,10 +48,7 @@ NOTES = ["Ramsey witness: the argument s is overwritten by the mapping variable 
 
 # ---------------------------------------------------------------- graphs
 def mk_graph(g):
-    G = Graph(g["n"])
-    for u, v in g["e"]:
-        G.add_edge(u, v)
-    return G
+    return common.graph_by_some_history(g["n"], g["e"])
 
 
 def enc_g(g):
